@@ -495,7 +495,9 @@ PROPS["C09"] = {
              "harness fault proxy. Case = ring size {128,256,512,4096,65536} x max factor {1,2,4}, 7..50 leader operations through a "
              "MemWaiterServerProtocol (LOCK/UNLOCK on 1..4 keys x DbId 0/1 x 3 LockIds, expiry 60..3600 s or unlimited, ExpriedFlag "
              "0x0100 = logged at once, Timeout 0, Count 0..2, Rcount 0..3 (re-entrant), update flag 0x02, SET/INCR/APPEND value "
-             "operations on lock and unlock), log rotations (Aof.RewriteAofFile as the admin command does), follower join (empty or "
+             "operations on lock and unlock), log rotations (Aof.RewriteAofFile as the admin command does), leader restarts (all followers stopped, leader closed and a fresh "
+             "instance started on the same directory: empty ring, position = last log record; 1 case in 8 is 'workload, quiesce, restart, a follower joins - mostly "
+             "with an emptied directory - before the leader's first new write, more workload'), follower join (empty or "
              "emptied directory) / stop / rejoin with its stale directory at drawn positions (before the first record, in the middle, "
              "after the workload), stall/unstall and drop of the replication connection, intermediate quiescence checks, and per "
              "follower 0..4 cuts at cumulative byte offsets of the leader->follower replication stream (gap classes 1..63, 64..400, "
@@ -507,10 +509,11 @@ PROPS["C09"] = {
              "every rotation), ids strictly increasing, payloads aligned, and from the follower's start id (first live record after "
              "its last full transfer) on the records of each append file are exactly the leader's; a directory whose append file "
              "indices have a hole is a violation. Non-trivial: (>=1 cut in file transfer and >=1 in live streaming) or (leader ring "
-             "overflowed and a follower had to resume / resynchronise). Distinct = FNV-64 of ring sizes, operation list and cut plan. "
+             "overflowed and a follower had to resume / resynchronise) or (the leader was restarted and a follower synchronised with it afterwards). Distinct = FNV-64 of ring sizes, operation list and cut plan. "
              "Inputs and fault plans replay, schedules do not (TestC09_Replay tries a cluster case up to 25 times)."),
     "assumptions": [
         "nothing expires during a case (expiries >= 60 s, cases last < 3 s) and nothing waits (Timeout 0); require-ack is C11's",
+        "after a leader restart the reference is the restarted leader (what its log recovers); followers are stopped with the leader, so no node carries pre-restart memory across it",
         "tunables read from the package-global Config after Init are identical on all nodes of a cluster; nodes are created sequentially",
         "ReplicationClient's 5 s reconnect sleep is shortened through its own WakeupRetryConnect every 3 ms; nothing else is touched",
         "Aof.WaitFlushAofChannel is not a barrier (returns while another channel still has a queued record): the harness repeats it "
@@ -556,17 +559,20 @@ PROPS["C10"] = {
     "rule": ("engine N: leader + one follower (in-process instances, loopback sockets, follower's slaveof = harness proxy that can stall "
              "the replication stream while client-forwarding connections keep working). TestC10_Forward: case = 0..6 preloaded holds on "
              "the leader + a script of 3..16 steps: LOCK/UNLOCK requests (1..3 keys, 3 LockIds, DbId 0/1, flags show/update/concurrent-"
-             "check/unlock-first, Count 0..2, Rcount 0..2, expiry 60..600 s logged at once, Timeout 0, SET/INCR/APPEND values) sent over "
+             "check/unlock-first, Count 0..2, Rcount 0..2, expiry 60..600 s logged at once, Timeout 0, SET/INCR/APPEND values; 1 binary script in 3 additionally one LOCK with the concurrent-check flag "
+             "and Timeout 1..3 s on a key that preloaded holders keep over its Count: the leader has to queue it, the harness watches 300 ms for an answer, then "
+             "releases the holder through the leader and reads the final reply) sent over "
              "one real TCP connection to the FOLLOWER's port as binary 64-byte frames (2/3) or RESP text 'LOCK key TIMEOUT 0 EXPRIED n "
              "LOCK_ID hex FLAG f COUNT c RCOUNT r' (1/3), direct in-process followerDB.Lock/UnLock calls, and role steps forcing the "
              "follower into SYNC / FOLLOWER / VOTE / CONFIG (SLock.updateState) between two requests of the same connection; half of "
              "the cases with the replication stream stalled. The requests that were not refused are then sent to the LEADER of a "
              "second fresh cluster with the same preload. Oracle: every reply through the follower equals the leader's reply to the "
              "same request (result, LCount, LRCount, Count, Rcount, LockId, value bytes; text: identical RESP bytes) or is a refusal "
-             "(STATE_ERROR, text '-ERR ...'); a direct call answers STATE_ERROR and leaves the node's snapshot unchanged; with the "
+             "(STATE_ERROR, text '-ERR ...'); a waiting request must not be answered through the follower before the leader path answers it; a direct call answers STATE_ERROR and leaves the node's snapshot unchanged; with the "
              "stream stalled the follower's snapshot (holders, depths, deadlines, values) is identical after every step although the "
              "leader's state does change; afterwards the follower converges to the leader (C09's oracle). "
-             "TestC10_FollowerKeepsExpiredHold: holds with 1..3 s expiry on 1..3 keys (depth 1..3) are replicated, the stream is "
+             "TestC10_FollowerKeepsExpiredHold: holds with 1..3 s expiry (or 1 min with the minute flag) on 1..3 keys (depth 1..3), carrying a drawn subset of the "
+             "expiry flags a log record preserves (keep-alive 0x8000, minute 0x0040, log-error 0x0800, no-reset 0x2000; always 0x0100, never unlimited) are replicated, the stream is "
              "stalled and the follower's clock is advanced 5..700 s through LockDB.checkTimeExpried (hook H1, no wall-clock sweeps): "
              "the hold must be present while clock - deadline < 300 s; then the leader releases and the follower must follow. "
              "...Real: the same with the real sweep goroutines, 3.5 s of wall time, leader expires, follower keeps, follower drops when "
@@ -574,6 +580,7 @@ PROPS["C10"] = {
              "(over TCP or direct); (expiry): hold observed past its deadline. Distinct = FNV-64 of the script / case."),
     "assumptions": [
         "text protocol scripts use DbId 0 and no value operations; a text refusal is a RESP error line ('-ERR Leader Server Error')",
+        "the early-answer window is 300 ms of wall time: a forwarded request that the leader answers at once (refusal) is an early answer on both paths and compared as usual; only 'early through the follower, late at the leader' is judged",
         "a request in role VOTE/CONFIG may be refused or, on a connection that already has a forwarding client, forwarded - both allowed",
         "forwarded requests without an INIT frame (no client id): the follower's pushed state frames are not part of the comparison",
         "the driver passes only C10's keys to a C10 run, so C09's exclusions are off there: a case whose cluster preparation or "
